@@ -182,6 +182,12 @@ def gen_cfg(rng, prop, tier):
             cfg["menu"] = ["HMixEq"]
             cfg["classes"] = ["HMixEq"] * len(cfg["classes"])
             cfg["twin"] = {"HMixEq": "HLightEq"}
+        elif rng.random() < 0.3:
+            # ... and with always-falsy or container-like classes on both sides
+            a, b = rng.choice((("HMixNo", "HLightNo"), ("HMixBag", "HLightBag")))
+            cfg["menu"] = [a]
+            cfg["classes"] = [a] * len(cfg["classes"])
+            cfg["twin"] = {a: b}
     else:
         cfg = struct.gen_cfg(rng, "C02", tier, allow_big=False)
         cfg["prop"] = "C17"
